@@ -3,7 +3,8 @@
    Model: Model/Deletion.v ([step true] = the code with fixes/C15-create-storage-tombstone.patch applied,
    [step false] = the code as found); proofs: Proofs/DeletionBase.v, DeletionInv.v, DeletionTheorems.v,
    DeletionSettings.v, DeletionWorker.v.  Histories are arbitrary operation lists ([run] = fold_left of [step] from the empty space);
-   restarts, worker runs cancelled after any number of tree-manager calls, failing tree managers, late re-delivery
+   restarts, worker runs cancelled after any number of tree-manager calls, failing tree managers, transient storage
+   errors at a tree's Delete during a worker run, late re-delivery
    of any earlier head-storage notification and a deletion racing a remote fetch / a put at any stage (recorded as
    queued or as deleted) are operations of the alphabet.
 
@@ -213,6 +214,66 @@ Example c15_worker_children_follow_nonvacuous :
   (* the child left untouched by the run (deleteBoundChildren skipped): refused by the children clause *)
   spec_C15 [1; 2; 3] (ops ++ [OpWorker [1] never []])
     (trace true [1; 2; 3] ops init ++ [(OWorker [1], [mkO 3 false 0 true; mkO 1 true 2 false; mkO 1 true 2 false])]) = false.
+Proof. vm_compute. repeat split; reflexivity. Qed.
+
+(* ---- transient storage errors in the deletion worker (OpWorkerS order k fail sfail: the tree storage Delete of the ids
+   [sfail] fails during the run; the sync tree the tree manager opened stays in its cache).  A stored id whose storage
+   Delete fails is left exactly as the run found it - heads entry (status: a queued id stays QUEUED, it is not reported
+   deleted), every stored change, membership in the queue and in the deleted set of the deletion state - whatever the
+   queue order, the cancellation point, the other failures and the bound-children passes of the run *)
+Theorem c15_storage_fault_keeps : forall s order k fail sfail i,
+  memb i sfail = true -> has_storage i s = true ->
+  let s' := fst (step true s (OpWorkerS order k fail sfail)) in
+  get i s' = get i s /\ has_entry i s' = has_entry i s /\ find_c i (chg s') = find_c i (chg s) /\
+  memb i (mq s') = memb i (mq s) /\ memb i (md s') = memb i (md s).
+Proof. exact worker_storage_fault_keeps. Qed.
+Print Assumptions c15_storage_fault_keeps.
+
+(* ... and the retry deletes it for good: from every reachable state, after the faulty run the id is still queued and
+   stored with the same number of changes, and any later run that is not cancelled and whose tree manager / storage do
+   not fail takes it to fully deleted with nothing left in the store (by c15_deleted_nothing_stored - which ranges over
+   ALL histories, faulty runs included - "deleted" is never reported while something of the id is stored) *)
+Theorem c15_storage_fault_retry : forall ops order k fail sfail i,
+  let s := run true ops init in
+  let s1 := run true (ops ++ [OpWorkerS order k fail sfail]) init in
+  memb i sfail = true -> has_storage i s = true -> memb i (mq s) = true ->
+  (status i s1 = status i s /\ has_storage i s1 = true /\ memb i (mq s1) = true /\
+   o_nchg (observe1 s1 i) = o_nchg (observe1 s i)) /\
+  forall order2 k2, worker_calls order2 k2 [] s1 < k2 -> memb i order2 = true ->
+    status i (worker order2 k2 [] s1) = 2 /\ has_chg i (worker order2 k2 [] s1) = false.
+Proof. exact storage_fault_retry. Qed.
+Print Assumptions c15_storage_fault_retry.
+
+(* a fully deleted id is gone, in every reachable state (after restarts too): fetching or putting it fails as already
+   deleted and changes nothing; it is never served from the local store *)
+Theorem c15_deleted_fetch_put_fail : forall ops i p d h rem,
+  let s := run true ops init in
+  status i s = 2 ->
+  step true s (OpFetch i p d h rem) = (s, OErrDeleted) /\ step true s (OpPut i p d) = (s, OErrDeleted).
+Proof. exact deleted_fetch_put_fail. Qed.
+Print Assumptions c15_deleted_fetch_put_fail.
+
+(* objects 1 and 2 with content, both deleted by one record; the run fails at the storage Delete of 1: 1 stays queued
+   with its 2 changes, 2 is deleted; the retry deletes 1; after a restart fetching it fails as already deleted.  The
+   behaviour "the retry reports 1 deleted while its changes are still stored, after the restart it is served locally"
+   violates spec_C15 at the retry and at the fetch *)
+Example c15_storage_fault_nonvacuous :
+  let ops := [OpPut 1 0 false; OpHead 1 1001; OpPut 2 0 false; OpHead 2 1002; OpSettings [1; 2]] in
+  let s := run true ops init in
+  let s1 := run true (ops ++ [OpWorkerS [1; 2] never [] [1]]) init in
+  let all := ops ++ [OpWorkerS [1; 2] never [] [1]; OpWorker [1] never []; OpRestart; OpFetch 1 0 false 1003 true] in
+  has_storage 1 s = true /\ memb 1 (mq s) = true /\
+  observe [1; 2] s1 = [mkO 2 false 2 true; mkO 3 false 0 true] /\
+  (worker_calls [1] never [] s1 <? never) = true /\
+  observe [1; 2] (worker [1] never [] s1) = [mkO 3 false 0 true; mkO 3 false 0 true] /\
+  spec_C15 [1; 2] all (trace true [1; 2] all init) = true /\
+  (let bad := [mkO 3 false 2 true; mkO 3 false 0 true] in
+   spec_C15 [1; 2] all (firstn 6 (trace true [1; 2] all init) ++ [(OWorker [], bad); (OOk, bad); (OLocal, bad)])) = false /\
+  (* the fetch clause alone: a fully deleted id served from the local store *)
+  spec_id (OpFetch 1 0 false 1003 true) OLocal 1 (mkO 3 false 2 true) (mkO 3 false 2 true) = false /\
+  spec_id (OpFetch 1 0 false 1003 true) OLocal 1 (mkO 2 false 2 true) (mkO 2 false 2 true) = true /\
+  (* the fault clause alone: reported deleted by the faulty run itself *)
+  spec_id (OpWorkerS [1] never [] [1]) (OWorker [1]) 1 (mkO 2 false 2 true) (mkO 3 false 0 true) = false.
 Proof. vm_compute. repeat split; reflexivity. Qed.
 
 (* ---- restart-stable *)
